@@ -34,6 +34,16 @@ mod ffi {
         // the usual way to dodge a Rust keyword: keyword + underscore, underscore + keyword (case conversion may strip the underscore)
         pub fn keywords4(&self, in_: u8, for_: i8, static_: u16, enum_: u32, _new: u8, class_: &str, _default: Option<u8>, typeof_: &Beta, _delete: Leaf) -> u8 { in_ }
     }
+    // keyword-named parameters the result borrows from: managed backends mention them again in their lifetime-edge lists
+    #[diplomat::opaque]
+    pub struct View<'a>(pub &'a Alpha);
+    pub struct Borrowing<'a> { pub alpha: &'a Alpha }
+    impl<'a> View<'a> {
+        pub fn keywords5(default: &'a Alpha, new: &'a [u8], class: &'a str, typeof_: Borrowing<'a>, delete: Option<&'a Alpha>, var: &'a Beta,
+                         function: &'a DiplomatStr16, int: u8) -> Box<View<'a>> { Box::new(View(default)) }
+        pub fn keywords6(&'a self, default: &'a Alpha, in_: &'a Beta, switch: Borrowing<'a>) -> Borrowing<'a> { Borrowing { alpha: default } }
+        pub fn keywords7(&'a self, export: &'a Alpha, let_: &'a Alpha) -> Option<&'a Alpha> { Some(export) }
+    }
     // cfg-gated methods (with and without a writer, on and off): the wrapper the macro emits must be gated exactly like the method
     impl Beta {
         #[cfg(feature = "absent_feature")]
@@ -157,7 +167,7 @@ def check(ctx, replay=None):
     viol, nfiles, compiles, goals, samples, skipped = 0, 0, 0, [], [], []
     def violate(key, obj, found=True):
         nonlocal viol
-        if viol < 4:
+        if len(ctx.violations) < 4:
             viol += 1
             ctx.violation(key, obj, found)
     # 1. the macro expansion type-checks under rustc
@@ -281,7 +291,7 @@ def check(ctx, replay=None):
         ctx.violation("macro-param-named-this", {"lib_rs": THIS, "what": "a parameter named `this` is accepted by the tool but the macro expansion binds `this` twice "
                                                  "(its own name for the receiver): rustc E0415", "rustc": p.stderr[-500:]}, True)
     fails = run_shards(PROP, HEADER, goals) if goals else []
-    if fails and viol == 0:
+    if fails and not ctx.violations:
         ctx.violation("corr:includes", {"broken": "correspondence goal " + goals[fails[0]][:400] + " : the include structure of the generated C headers is not the one Headers/Model.v derives"}, False)
     for f in os.listdir(d):
         if f.startswith("out_"):
